@@ -254,7 +254,7 @@ class PolicyBlocks(Device):
         cur = self.cur
         size = cur["size"] if cur["size"] is not None else 10 ** 9
         rem = size - len(cur["data"])
-        if rem > 0 and cur["chunks"] and len(cur["chunks"]) < 400:
+        if rem > 0 and cur["chunks"] and len(cur["chunks"]) < 4000:
             default = min(rem, FW_MAX)
             seen = {default}
             opts = [("ask", default)]
@@ -282,13 +282,9 @@ class PolicyBlocks(Device):
         if cur["kind"] == "brother":
             self.brothers_left -= 1
             if self.brothers_left > 0:
-                # next brother, or finish the block early
-                opts = ["bmeta", "endblock"]
-                o = opts[self.choose(len(opts), "after-brother")]
-                if o == "bmeta":
-                    self.expect = "bmeta"
-                    return bytes([0x80, cmd, 0x08])
-                return self.end_of_block()
+                # bc_advance.c: the firmware always takes every announced brother
+                self.expect = "bmeta"
+                return bytes([0x80, cmd, 0x08])
             return self.end_of_block()
         if self.advance:
             opts = ["blist", "endblock"]
